@@ -203,6 +203,7 @@ def build(spec, log=None, lookup=None, hook=None):
         b.lin.append((A, np.array(L["lb"], float), np.array(L["ub"], float)))
         cons.append(("lin", L.get("pos", 0), lc))
     b.nl = []
+    cfuns = []
     for i, N in enumerate(spec.get("nl", [])):
         comps = N["comps"]
         nlargs = tuple(N.get("args", ()))
@@ -239,6 +240,11 @@ def build(spec, log=None, lookup=None, hook=None):
                 return [float(v) for v in vals]
             return np.array(vals, float)
 
+        # "share_with": j - use the very function object of the j-th constraint (same components), as a user
+        # does who writes NonlinearConstraint(f, a, inf) ... NonlinearConstraint(f, -inf, b) with one f
+        cfuns.append(cfun)
+        if N.get("share_with") is not None and 0 <= int(N["share_with"]) < i:
+            cfun = cfuns[int(N["share_with"])]
         m = len(comps)
         if N.get("form", "NC") == "dict":
             d = {"type": N["type"], "fun": cfun}
